@@ -235,6 +235,28 @@ func propC14(c *Ctx, r *Report) {
 		t, _ := acc.run(c, r, sp, sc)
 		live := t.Live(convName)
 		r.check(live == cs.wantLive, "C14/valuation-table", cs.name, c.pos(sp.Pos()), "Convert "+liveStr(live), fmt.Sprintf("Convert is %s, expected %s", liveStr(live), liveStr(cs.wantLive)))
+		// a skipped asset is skipped alone: the loop over the tickers goes on (no return or break out of the body)
+		if !cs.wantLive && !live {
+			for _, ci := range c.findCallsFam(sp, convName) {
+				fs := findStateOf(t.Root, ci.Parent(), 0)
+				l := innermostLoop(ci.Parent(), ci.Block())
+				if fs == nil || l == nil {
+					continue
+				}
+				early := ""
+				for b := range l.blocks {
+					if b == l.header || !fs.execB[b] {
+						continue
+					}
+					for _, sx := range b.Succs {
+						if !l.blocks[sx] && fs.execE[[2]int{b.Index, sx.Index}] {
+							early = c.ipos(firstPosInstr(sx))
+						}
+					}
+				}
+				r.check(early == "", "C14/valuation-table", cs.name+": the other assets are still valued", c.ipos(ci), "the ticker loop continues", "the ticker loop is left at "+early+" when this asset is skipped: every asset after it in ticker order is missing from the holder's stake, so payouts are not proportional to USD value")
+			}
+		}
 	}
 	acc.report(c, r, "C14/valuation-table", sp)
 	// valuation arguments: amount = balance[i], from = rates[i], to = rates[pUSD] (in SnapshotPayouts or a helper split off from it)
@@ -456,4 +478,20 @@ func orderedElementLoop(c *Ctx, site ssa.CallInstruction) bool {
 		}
 	}
 	return false
+}
+
+// findStateOf: the analysed state of fn in the call tree below root (root itself, or a callee analysed in place).
+func findStateOf(root *fnState, fn *ssa.Function, depth int) *fnState {
+	if root == nil || depth > 4 {
+		return nil
+	}
+	if root.fn == fn {
+		return root
+	}
+	for _, cs := range root.callees {
+		if s := findStateOf(cs, fn, depth+1); s != nil {
+			return s
+		}
+	}
+	return nil
 }
